@@ -62,7 +62,7 @@ PROPS = {
     "C04": dict(
         props=["ZipVerif.Props.C04"],
         tie=[],
-        streams=["damage"],
+        streams=["damage", "read"],
         title="A read that completes successfully returned uncorrupted data",
         level_text="Lean 4 theorems: for ANY inner reader and ANY schedule of caller buffer sizes (zeros included) a non-empty read of the CRC layer returning Ok(0) implies AE-2 or crc32(bytes returned) = declared (hasher = fold of the bytes returned, induction over the call list); corrupted Stored payloads / CRC fields / truncated payloads denote an error for every schedule and short-read behaviour; CRC-32 provably detects every single-byte substitution (bitwise, from the polynomial); the layer model is tied to the source by correspondence (function-level ops on Crc32Reader/Take through hooks and archive-level ops through the public API with bit-flip damage) and an implementation-only oracle using crc32fast",
         level_note="Crc32Reader/Take bodies are hand-modelled (Model/Layers.lean) and tied by differential testing, not by translation; decoders are a parameter (nothing assumed for soundness, the CRC layer is outermost); Spec.Crc32 = crc32fast by correspondence; AE-2 entries are exempt here and covered by C16",
@@ -70,7 +70,7 @@ PROPS = {
     "C09": dict(
         props=["ZipVerif.Props.C09"],
         tie=[],
-        streams=["layers"],
+        streams=["layers", "read"],
         title="Results do not depend on how I/O is chunked",
         level_text="Lean 4 theorems over a schedule-free denotation of readers (every sequence of request sizes incl. zero, every short-read behaviour): Take, Crc32Reader, the fixed ZipCrypto reader and any count-preserving per-byte stateful transform map denotations to denotations, composed into the Stored (plain / ZipCrypto) entry pipelines end-to-end and into the compressed ones modulo an explicit codec hypothesis; EOF is sticky; read_exact and write_all are schedule independent; ZipWriter::write accounts exactly the accepted bytes so data, CRC and size are independent of sink short writes and of the caller's splitting; the pre-fix ZipCrypto reader is refuted on a concrete 2-call schedule; tied by correspondence over scripted short-read readers / short-write sinks (function level through hooks, archive level through the public API) plus an implementation-only oracle against the unchunked run",
         level_note="layer bodies are hand-modelled and tied by differential testing; flate2/bzip2/zstd chunk independence is an explicit hypothesis (Codec.ChunkIndependent), validated only by the oracle; the AES reader is modelled elsewhere (generic statefulMapLayer theorem provided), AES entries are oracle-only here; u64 counters are modelled as Nat",
